@@ -29,6 +29,7 @@ type PreemptW struct {
 }
 
 type Spec struct {
+	Fresh bool `json:"fresh,omitempty"` // run in a worker process that has executed nothing before (and nothing after): package-level state written only once per process is then written in THIS run
 	ID      string    `json:"id"`
 	Order   OrderPlan `json:"order"`
 	Budget  uint64    `json:"budget,omitempty"`
@@ -48,6 +49,7 @@ type Op struct {
 	Scenario string   `json:"scenario,omitempty"`
 	File     string   `json:"file,omitempty"`
 	Text     string   `json:"text,omitempty"`
+	TextB64  string   `json:"text_b64,omitempty"` // entry: the text when it is not valid UTF-8 (JSON strings cannot carry a sequence cut inside a character)
 	Kind     string   `json:"kind,omitempty"`
 	Engine   string   `json:"engine,omitempty"`
 	Input    string   `json:"input,omitempty"`
